@@ -25,7 +25,59 @@ claimed = {
    design_ref="DESIGN.md section 4 (C08), section 9",
    note="Trusted: assumed contracts of strconv.ParseInt/ParseFloat/UnquoteChar, time.ParseDuration, utf8.DecodeRuneInString, regexp; axioms that the six constant regular expressions compile and do not match the empty input; the reader is a *text.Reader (Parser contract precondition). Not decided: that the lexeme is the longest literal of the documented syntax (regexp semantics), that escapes denote the right code points (strconv)."),
 }
+
+PARTIAL = "contract-based deductive verification (partial: the clauses listed are proved for all inputs; the rest of the property's statement is not decided by this check)"
+claimed.update({
+ "C04": dict(
+   category="other",
+   text="Deductive, per function. Proved for all inputs: (1) parsley.Parse returns exactly one of a non-nil node or a non-nil error ([one-of]) for EVERY root parser that satisfies the Parser contract PC; (2) clause PC1 of PC (\"no node and no error only if some Memoize curtailed\") is proved of every parser the library builds: the 11 literal parsers, Empty, End, ReturnError/Name, Optional, Any, Choice, Memoize, LeftTrim, RightTrim, the recursive sequence (Seq/SeqOf/SeqTry/SeqFirstOrAll/Many/SepBy via (*Sequence).Parse) -- and at the root no Memoize is active, so the curtailed case cannot reach Parse's caller (ghost GhostCurtailed reset at Parse entry); SuppressError and Single are excluded by name in their contracts; (3) End matches exactly at end of input and returns the EOF node there ([eof]); Sentence(p) is the sequence [p, End] with length check n == 2 bound to Select(0) ([root]); (4) Evaluate never calls EvaluateNode without a node, EvaluateNode never panics (the default branch's node.Pos() is reached only with a non-nil node), (*NonTerminalNode).Value calls exactly its own interpreter with exactly that node and panics only without an interpreter (the property's hypothesis is the precondition). NOT decided: 'succeeds precisely when some parse consumes the entire input' (needs C01's completeness) and that the returned tree spans the whole input (needs the sequence's result-structure equations).",
+   design_ref="DESIGN.md sections 3.1, 4 (C04), 9",
+   note="Trusted/assumed: interface contracts on foreign Parser, Node, Interpreter and Reader implementations (PC is what a user-written parser must satisfy); errors.New/fmt.Errorf/errors.As contracts; node positions are >= 0; a Sequence's lookup/length functions are pure and satisfy the shape precondition of Seq; go/ssa semantics; solvers."),
+ "C07": dict(
+   category="other",
+   text="Deductive frame (footprint) verification: every store, append, copy, map update and call in every function under contract (all of data, ast, parser, text, text/terminal, combinator, parsley's parse/evaluate path: ~220 functions) carries a frame obligation -- the written location is either memory allocated by the current call or named in the function's `assigns` clause, and callee footprints must fit the caller's. The Parser contract's footprint contains NO node field and NO list array element, so a parser that conforms to it cannot modify any node or list that existed before the call; list arrays carry an ownership discipline (ghost append permission GhostSpare, clause PC2 ListOwn, spare-frame) that proves AppendNode/NodeList.Append write only into arrays created during the current call or into spare capacity nobody else can see, Memoize stores and returns lists without spare capacity ([cache], nl[:len:len]), and the sequence result handler copies the scratch slice ([copy]). The one place where this fails is reported as KNOWN FINDING D8: text.RightTrim writes the end position into nodes its operand returned (obligation text.RightTrim$1/frame/call#8:SetReaderPos; real failing input in /verif/findings). SetReaderPos methods are proved to change only the receiver's readerPos.",
+   design_ref="DESIGN.md sections 3.2, 4 (C07), 6, 9",
+   note="Known finding D8 listed in known_findings.json. Assumed: interface contracts (foreign parsers/nodes keep to the PC footprint; interpreters/transformers may write node fields only during Evaluate/Transform, which happen after the parse); NewNonTerminalNode stores the children slice it is given (callers in the library pass fresh copies -- proved at the call sites under contract); Transform/StaticCheck (post-parse passes that mutate nodes by design) are outside this property's 'during the parse' scope; IntMap.Filter trusted."),
+ "C14": dict(
+   category="other",
+   text="Deductive: data-race freedom is reduced to a footprint property and that footprint property is proved. Every function under contract is proved (frame obligations, same machinery as C07) to write only (a) memory it allocated itself, (b) state reachable from its own *Context / *Reader / receiver arguments as named in its assigns clause (ctx.err, ctx.callCount, the context's result-cache maps, the reader's regexp cache, node fields during RightTrim/Transform). No function's assigns clause names a package-level variable except combinator.Memoize (nextParserIndex, written only through sync/atomic.AddInt32 -- [frame/call#1:atomic.AddInt32]) and the package initialisers; the package-level values EmptyIntSet/EmptyIntMap, the whitespace errors, ErrNoValue are covered by global invariants proved in init and never in any assigns clause; errors.As targets are locals (fix D7). Two parses with distinct contexts, readers and inputs therefore write disjoint memory and only read the shared parser graph (closure captures are proved never assigned after construction: closure contracts have `assigns nothing` beyond PC).",
+   design_ref="DESIGN.md sections 3.2, 4 (C14), 9",
+   note="NOT decided by this technique: the Go memory model / actual interleavings (no concurrency semantics in the VCs) -- the step 'disjoint write footprints + read-only sharing implies race freedom and equal results' is the standard meta-argument, stated in DESIGN.md, not machine-checked. Assumed: regexp.Regexp methods are safe for concurrent use (documented by Go), foreign parsers keep to the PC footprint."),
+ "C10": dict(
+   category="other",
+   text="Deductive. Proved for all file contents/offsets/positions: Reader.SkipWhitespaces skips exactly the maximal run of space, tab, LF, FF ([run],[allws],[maximal]) and returns the mode's verdict: none: error iff the run is non-empty, at its start; spaces: error iff the run contains a line break, at the first one; spaces-and-newlines: never; force-newline: error iff no line break, at the end of the run; every error is a whitespace error ([none],[spaces],[spaces-pos],[nl],[forcenl],[kind]). LeftTrim calls its operand exactly once right after the run with the caller's context ([once],[after-run]), returns the operand's result unchanged when the mode accepts ([accepted],[transparent]) and the mode error at the start for mode none. RightTrim calls its operand once at pos, and moves each alternative's end forward past the run that follows it, inside the input ([moved]); each SetReaderPos method calls the callback exactly once with its old end and stores the answer, changing nothing else ([once],[moved], frame). NOT decided: the exact error-priority rules of LeftTrim for the other three modes, 'inserting permitted whitespace never changes a parse' (a whole-grammar statement), Parse's preference for whitespace errors.",
+   design_ref="DESIGN.md section 4 (C10), 9",
+   note="Assumed: the reader is a *text.Reader; contracts of regexp/utf8; the callback protocol ast.rpcallback for foreign SetReaderPos callbacks; a well-formed foreign node implements ReaderPosSetter (axiom [settable], proved for the repository's node types by lemma settable_repo)."),
+ "C03": dict(
+   category="other",
+   text="Deductive. Proved of combinator.Memoize's closure for all inputs: on a cache hit (an entry whose stored left-recursion counts are all <= the current ones) the wrapped parser is NOT called and the stored node, curtailing set and error are returned as they are ([hit]); otherwise, unless curtailed, the wrapped parser is called exactly once with the caller's context and position and the counter of this parser incremented ([once],[inc]), its node/cp/error are returned unchanged apart from cutting the list's spare capacity, and exactly that triple is stored under (parser index, pos) with the context filtered to the curtailing parsers ([miss],[value]); ResultCache.Get/Save are proved against the map model ([reuse]). Context.SetError keeps the maximum position. In a left-recursion-free grammar nothing is curtailed (cp stays empty -> stored context empty -> every later lookup at the same position hits): that last step is a short meta-argument over the proved clauses. Determinism: the VCs model every library function as a function of its inputs and the heap; the only non-determinism is the parser index (a fresh number per Memoize call).",
+   design_ref="DESIGN.md section 4 (C03), 9",
+   note="NOT decided: equality of the complete result lists and furthest-error positions of a memoized vs. un-memoized grammar as a whole-grammar statement (it follows from [hit]/[miss] by induction over the parse, not machine-checked); call-count equality across runs."),
+ "C02": dict(
+   category="other",
+   text="Deductive. The curtailment mechanism is proved clause by clause for all inputs: Memoize returns without calling its operand when the parser's counter exceeds Remaining(pos)+1 ([curtailed]) and otherwise increments exactly that counter ([inc]); every combinator passes the caller's counters on unchanged at the same position and (the sequence) resets them only when input was consumed -- stated as the ghost 'floor' discipline: a callee at the same position receives counters pointwise >= the caller's ([floor] precondition of PC, proved at every Parser call site in Optional, Any, Choice, Memoize, LeftTrim, RightTrim, ReturnError, Single, the sequence's parse/parseNext: obligations pre@call#..:parsley.Parser.Parse/floor); every returned node ends inside [pos, end of input] ([PC3]) so a sequence element that reports consumption really moved forward; Remaining is proved against its byte-level definition (C09). The bound 'a memoized parser is active at most Remaining+2 times at a position' follows from [floor]+[inc]+[curtailed] by a counting argument that is stated in DESIGN.md but not machine-checked; termination itself is not proved (partial correctness only).",
+   design_ref="DESIGN.md section 4 (C02), 9",
+   note="Fixed defect D3 (sequence dropped the counters without consumption) was found as a failing [floor] obligation. Assumed: foreign parsers satisfy PC; lookup functions of sequences are pure."),
+ "C13": dict(
+   category="other",
+   text="Deductive, covering the evaluation half of the property: (*NonTerminalNode).Value is proved to call exactly one interpreter -- its own -- with exactly (userCtx, this node) and to return that call's value and error unchanged ([own-interpreter],[result], call-log postconditions); EvaluateNode dispatches literal / non-literal / no-value correctly without panicking; interpreter.Select(i) evaluates exactly child i (index proved in bounds under its precondition) and its StaticCheck returns child i's schema. NOT decided in this round: Walk's post-order/exactly-once/early-stop, StaticCheck's bottom-up order and Transform's recursion (these need a ghost visit trace over the recursive tree structure; contracts not written), Array/Object interpreters.",
+   design_ref="DESIGN.md section 4 (C13), 9",
+   note="parsley.StaticCheck carries an assumed (flag trusted) contract; Walk, Transform of NonTerminalNode are not under contract."),
+ "C06": dict(
+   category="other",
+   text="Deductive, per clause. Proved for all inputs: every error a library parser returns lies inside [pos, end of input] ([PC3e]) and is never beyond the ghost high-water mark GhostMaxFail, which is only ever raised to the position of an error that some terminal (or End, ReturnError, a whitespace check) actually produced at that position ([PC6] + the ghost_return updates: the furthest-failure bound of the property); End's error is at pos ([errpos]); ReturnError/Name replaces exactly a not-found error located at pos by the named error at pos and leaves any other error alone ([named],[kept]); Context.SetError keeps the maximum; FileSet.ErrorWithPosition renders through Position (C11). NOT decided: equality with the furthest failure when every Any/Choice is named (needs the no-loss direction through sequence/Any/Choice), the literal message format (fmt), which expectation text is reported.",
+   design_ref="DESIGN.md section 4 (C06), 9",
+   note="Assumed: fmt.Errorf returns non-nil; foreign parsers satisfy PC6."),
+ "C01": dict(
+   category="other",
+   text="Deductive, soundness-side building blocks only. Proved for all inputs: the local equations of the combinators -- Empty returns the empty node at pos ([E6]); Optional returns its operand's results followed by the empty match ([E6],[E6-empty]); Memoize's reuse/miss/curtailed clauses (context-sensitive reuse exactly when stored counts <= current counts) ([reuse],[miss],[curtailed]); SeqOf/SeqTry/SeqFirstOrAll/Many/SepBy build exactly the lookup and length functions of their documentation ([E7-lookup],[E7-len],[E8-*],[E9-*]); the default result handler builds a node over a copy of exactly the matched nodes spanning first.Pos..last.ReaderPos ([copy],[span],[empty]); AppendNode/NodeList.Append keep every earlier alternative and add the new ones in order ([prefix],[perm],[alt-frame]); IntSet/IntMap operations equal their set/map models (C15); every result ends inside the input ([PC3]). NOT decided: the global theorem (every derivation is returned / completeness under left recursion, Frost-Hafiz-Callaghan) -- it is not a postcondition of any single function and was not mechanised; the sequence's enumeration equation (all combinations of element alternatives) is only proved as memory-safety + ownership + floor, not as a set equation.",
+   design_ref="DESIGN.md section 4 (C01), 9",
+   note="This check guards the mechanisms C01 depends on (it caught D2 and D3, which lose parses); it does not prove C01."),
+})
+for k in ("C04","C07","C14","C10","C03","C02","C13","C06","C01"):
+    claimed[k]["technique"] = PARTIAL
 NA = {
+ "C12": "placement invariance is a relational (two-run) statement; the per-run contracts of every reader primitive are proved (C09) and are phrased over pos - file.offset and the file's bytes only, but the two-run lemma facility was not built in this round, so no discharged obligation states the shift property",
  "C05": "differential agreement with a reference evaluator on a client grammar: depends on the shape of trees built by curtailed left recursion (C01's global theorem) plus a model of client interpreters; no contract on a function of /repo states it",
  "C16": "differential statement against encoding/json (and strconv/regexp semantics) for all documents; contracts reach only the pieces (claimed under C08/C10/C13)",
  "C17": "asymptotic bound on call counts over grammar families is not a pre/postcondition of any function; proving a ghost cost bound is the FHC complexity theorem itself",
@@ -43,7 +95,7 @@ for i in ids:
           "engine": "govc",
           "level_claimed": {"category": c["category"], "text": c["text"], "design_ref": c["design_ref"]},
           "level_note": c["note"],
-          "technique": "contract-based deductive verification: weakest-precondition style VCs generated per path from go/ssa of the real code against //@ contracts, discharged by z3/cvc5",
+          "technique": c.get("technique", "contract-based deductive verification: weakest-precondition style VCs generated per path from go/ssa of the real code against //@ contracts, discharged by z3/cvc5"),
         })
 na=[]
 for i in ids:
